@@ -268,11 +268,13 @@ def run(ctx, rep):
         c = {A.src(x.ast): pol for x, pol in Q.dominating_conditions(gar, se[0], domar)}
         call = [c_ for c_ in A.calls(se[0].ast) if isinstance(c_.func, ast.Attribute) and c_.func.attr == "set_expiry"][0]
         pops = [n for n in A.walk(far.node) if isinstance(n, ast.Assign) and isinstance(n.targets[0], ast.Name) and any(
-            isinstance(cc.func, ast.Attribute) and cc.func.attr == "pop" and cc.args and ctx.try_fold(cc.args[0]) == "timeout"
-            and len(cc.args) == 2 and ctx.try_fold(cc.args[1]) is None and isinstance(cc.args[1], ast.Constant)
+            isinstance(cc.func, ast.Attribute) and cc.func.attr in ("pop", "get") and cc.args and ctx.try_fold(cc.args[0]) == "timeout"
+            and (len(cc.args) == 1 and cc.func.attr == "get" or len(cc.args) == 2 and ctx.try_fold(cc.args[1]) is None
+                 and isinstance(cc.args[1], ast.Constant))
             for cc in A.calls(n.value))]
         tvar = pops[0].targets[0].id if pops else None
-        okse = bool(pops) and c.get("%s is not None" % tvar) is True and A.src(call.args[0]) == tvar
+        # tests are in positive form in the CFG: `timeout is not None` is the false edge of `timeout is None`
+        okse = bool(pops) and c.get("%s is None" % tvar) is False and A.src(call.args[0]) == tvar
     rep.ob("R15.6", "async_request applies the expiry iff a timeout was given", okse,
            "`if timeout is not None: res.set_expiry(timeout)`" if okse else
            "async_request does not apply the given timeout exactly when one was given (`is not None`): a timeout of 0 must expire at once",
